@@ -8,6 +8,7 @@ mod c09;
 mod c10;
 mod c14;
 mod c16;
+mod c17;
 mod c18;
 mod c19;
 mod c21;
@@ -35,6 +36,7 @@ fn main() {
         "c10" => c10::main(&args),
         "c14" => c14::main(&args),
         "c16" => c16::main(&args),
+        "c17" => c17::main(&args),
         "c18" => c18::main(&args),
         "c19" => c19::main(&args),
         "c21" => c21::main(&args),
